@@ -13,11 +13,10 @@ Full statement (C38): for EVERY operation with EVERY argument on a collection of
 instrumented operation has the contents, return value and exception of the builtin operation
 and its events account exactly for the membership change.
 
-It is false of the code as it stands in four places (all replayed on the real code and listed
+It is false of the code as it stands in three places (all replayed on the real code and listed
 in known_findings.d/C38.json); the theorems below are therefore `_partial` with the exact
 guards, and each excluded region has a `_counterexample`:
 
-* G1 `remove(x)` with `x` absent fires a remove event before raising ValueError;
 * G3 `l[a:b] = <non-iterable>` deletes the slice before raising TypeError;
 * G4 `l[a:b:k] = <iterator>` raises TypeError (needs `len(value)`);
 * G5 `l *= n` fires no events.
@@ -245,13 +244,12 @@ theorem instrumented_list_refines_list_partial (l : List Item) (op : LOp)
 
 /-- where the events are claimed to account exactly for the change -/
 def EventsGuard (l : List Item) : LOp → Prop
-  | .remove x => x ∈ l
   | .imul n => n = 1
   | op => ContentsGuard l op
 
 /-- **instrumented_list_events_account_partial**: old contents + appended = new contents +
-    removed (as multisets) for every operation — outside G1 (`remove` of an absent item),
-    G5 (`*=`) and the regions excluded by `ContentsGuard`. -/
+    removed (as multisets) for every operation — outside G5 (`*=`) and the regions excluded by
+    `ContentsGuard` (`remove` of an absent item fires nothing: G1 is fixed). -/
 theorem instrumented_list_events_account_partial (l : List Item) (op : LOp)
     (hg : EventsGuard l op) :
     Accounts l (iStep l op).events (iStep l op).items := by
@@ -260,9 +258,12 @@ theorem instrumented_list_events_account_partial (l : List Item) (op : LOp)
     show Accounts l [.app x] (l ++ [x])
     unfold Accounts; simp [apps, rems]
   | remove x =>
-    have hx : x ∈ l := hg
-    simp only [iStep, iRemove, pRemove, List.contains_iff_mem.2 hx, if_true]
-    exact acc_erase hx
+    by_cases hx : x ∈ l
+    · simp only [iStep, iRemove, pRemove, List.contains_iff_mem.2 hx, if_true]
+      exact acc_erase hx
+    · have hc : l.contains x = false := by simpa using hx
+      simp only [iStep, iRemove, pRemove, hc, Bool.false_eq_true, if_false]
+      exact acc_refl l
   | insert p x => exact acc_insert l p x
   | setitem i x =>
     simp only [iStep, iSetItem, pGet, pSetItem]
@@ -476,11 +477,11 @@ theorem instrumented_list_history_events_account_partial (ops : List LOp) : ∀ 
 
 /-! ## the excluded regions are real: counterexamples (each replayed on the real code) -/
 
-/-- G1: `[0].remove(1)` raises ValueError on both but the instrumented list has already fired
-    a remove event for an item that was never in the collection -/
-theorem remove_absent_counterexample :
-    ∃ (l : List Item) (x : Item), (iStep l (.remove x)).ret = .err .valueError ∧
-      ¬ Accounts l (iStep l (.remove x)).events (iStep l (.remove x)).items := by
+/-- sensitivity (G1, fixed): the unguarded `remove` of the code before the fix fires a remove
+    event for an item that was never in the collection (`[0].remove(1)`) -/
+theorem remove_unguarded_counterexample :
+    ∃ (l : List Item) (x : Item), (iRemoveUnguarded l x).ret = .err .valueError ∧
+      ¬ Accounts l (iRemoveUnguarded l x).events (iRemoveUnguarded l x).items := by
   refine ⟨[0], 1, by decide, ?_⟩
   intro h
   have := h.length_eq
@@ -554,7 +555,7 @@ example : (iStep [0, 1, 2] (.setslice ⟨some 1, some 3, none⟩ ⟨.self, []⟩
 example : AllGuarded [0, 1] [.append 2, .setslice ⟨some 5, some 1, none⟩ ⟨.iter, [3]⟩, .pop (-1)] := by
   refine ⟨trivial, ?_, trivial, trivial⟩
   simp [ContentsGuard, sliceIndices, adjust, pStep]
-example : EventsGuard [0, 1] (.remove 1) := by simp [EventsGuard]
+example : EventsGuard [0, 1] (.remove 7) := by simp [EventsGuard, ContentsGuard]
 
 /-! # instrumented set -/
 open SaVerif.PySeq.SetI
